@@ -41,6 +41,7 @@ class Engine:
         self.reg.saturate_hook = seqtheory.saturate
         self.reg.loop_index_hook = lambda ip, i: seqtheory.add_index(ip, i, loop=True)
         self.reg.index_used_hook = seqtheory.index_used
+        self.reg.all_hook = seqtheory.all_hook
         self.reg.define_array_hook = lambda ip, arr, n, elem: seqtheory.define_array(ip, arr, n, elem, "code")
 
     def schema_factory(self):
